@@ -175,6 +175,21 @@ def run(ctx):
             if K >= 3 or cost is not None:
                 ctx.nontriv((name, repr(classes), None if cost is None else cost.tobytes(), X.tobytes(), repr(yv)))
             msg = oracle(clf, P, pred, classes, cost, scen, name, Xq)
+            if msg is None and "classes=None" not in name and "partial_fit" not in name and scen != "no_labels" and h % 2 == 0:
+                # the SAME object fitted again, now without a single label (declared classes): nothing of the earlier fit may survive
+                try:
+                    y0 = np.full(np.shape(yy), missing, dtype=np.asarray(yy).dtype) if not isinstance(missing, float) else np.full(np.shape(yy), np.nan)
+                    import copy
+                    used = copy.deepcopy(clf)          # the fitted object (all of its state), refitted
+                    used.fit(X, y0)
+                    P0 = np.asarray(used.predict_proba(Xq), dtype=float)
+                    msg = oracle(used, P0, np.asarray(used.predict(Xq)), classes, cost, "no_labels", name, Xq)
+                    if msg and getattr(used, "is_fitted_", True) is False:
+                        clf = used                      # so that the recorded finding about un-fittable wrapped estimators is recognised
+                    if msg:
+                        msg = (msg[0], "object fitted before, then refitted without labels: " + msg[1])
+                except Exception as e:
+                    msg = ("exception_after_refit:" + err_class(e), f"refit without labels raised {repr(e)[:200]}")
             if msg:
                 tags = {"wrapped_estimator_not_fitted"} if getattr(clf, "is_fitted_", True) is False else set()
                 rc["tags"] = sorted(tags)
